@@ -405,16 +405,22 @@ class Solver:
         """The vector initialised as b - A*x before the loop."""
         ctx = self.ctx
         want = ("op", "-", B_, ("call", MULT, P(0), X_))
-        for v in self.vec_vars:
+        cands = []
+        for v in sorted(self.vec_vars, key=repr):
             if v[0] != "var":
                 continue
             b = ctx.binds.get(v[1])
             if b is not None and b.init is not None and ctx.term(b.init) == want:
-                return v
+                cands.append(v)
+                continue
             for a in ctx.assigns.get(v[1], []):
                 if a.get("k") == "Assign" and ctx.term(a["r"]) == want and not any(x is self.main for x in ancestors(a)):
-                    return v
-        return None
+                    cands.append(v)
+                    break
+        # several locals may hold b - A*x at the start (a temporary of a destructuring assignment, a helper's local):
+        # the residual is the one the loop updates
+        live = [v for v in cands if any(any(x is self.main for x in ancestors(m)) for _, m in ctx.mutations.get(v, []))]
+        return (live or cands or [None])[0]
 
     def run_body(self, hyps=()):
         """Run the abstract interpreter over the loop body once per first-iteration case.  Returns list of Models."""
@@ -607,7 +613,7 @@ def rule_normaliser(rep, sv, name):
     if len(divs) != 1 or list(divs)[0][0] != "var":
         rep.bad("normaliser/%s" % name, rule, fn["body"], "divisors: %s" % [show(d, ctx) for d in divs], where="%s:%d" % (fn["file"], fn["span"][0]))
         return
-    nb = list(divs)[0]
+    nb = copy_source(ctx, list(divs)[0])
     defs = []
     b = ctx.binds.get(nb[1])
     if b is not None and b.init is not None:
@@ -622,6 +628,9 @@ def rule_normaliser(rep, sv, name):
         if t[0] == "num" and t[1] != 0:
             det.append("repair value %s" % t[1])
             continue
+        if repaired_norm(t) == nb:
+            det.append("repair `n = if n == 0 { c } else { n }`")
+            continue
         if t[0] == "call" and str(t[1]).endswith("::norm_2"):
             V = t[2]
             src = V
@@ -635,6 +644,31 @@ def rule_normaliser(rep, sv, name):
             ok = False
             det.append("unrecognised definition %s" % show(t, ctx))
     rep.add("normaliser/%s" % name, rule, ok and n_norm >= 1, defs[0][0] if defs else fn["body"], "; ".join(det))
+
+
+def copy_source(ctx, v, depth=0):
+    """Follow `let w = v;` / `w = v;` copies (w defined exactly once, by a plain local) back to the variable that carries
+    the definitions: a helper returning (r, normb) leaves the caller's normb a copy of the helper's."""
+    if v[0] != "var" or depth > 4:
+        return v
+    b = ctx.binds.get(v[1])
+    if b is None or b.kind != "let" or b.proj:
+        return v
+    asg = [a for a in ctx.assigns.get(v[1], [])]
+    srcs = []
+    if b.init is not None:
+        srcs.append(strip(b.init))
+    srcs += [strip(a["r"]) for a in asg if a.get("k") == "Assign"]
+    if len(srcs) != 1 or len(asg) != (0 if b.init is not None else 1):
+        return v
+    s0 = srcs[0]
+    while s0.get("k") == "MethodCall" and s0.get("name") == "clone" and not s0.get("args"):
+        s0 = strip(s0["recv"])
+    if s0.get("k") == "Local":
+        sb = ctx.binds.get(s0["v"])
+        if sb is not None and sb.kind == "let":
+            return copy_source(ctx, ("var", s0["v"]), depth + 1)
+    return v
 
 
 def repaired_norm(t):
